@@ -37,6 +37,9 @@ func (ex *Exec) learnBounds(c *Term) {
 			if k.IsConst() && k.sort.K == SBV && k.sort.W == 64 {
 				v := signExt(k.u, 64)
 				b := ex.boundOf(x)
+				if r := ex.rangeOf(x, 0); r.lo > b.lo || r.hi < b.hi {
+					b = ival{max(b.lo, r.lo), min(b.hi, r.hi)}
+				}
 				if b.lo == v && v < maxI64 {
 					b.lo++
 					ex.bounds[x.id] = b
@@ -274,6 +277,12 @@ func (ex *Exec) rangeOf(t *Term, depth int) ival {
 				in := t.args[0]
 				if in.op == "bvurem" && in.args[1].IsConst() && !in.args[1].isZero() && in.args[1].u-1 < uint64(r.hi) {
 					r.hi = int64(in.args[1].u - 1)
+				}
+				if (in.op == "bvurem" || in.op == "bvudiv") && in.args[0].op == "extract" && in.args[0].p2 == 0 && in.args[0].args[0].sort.W == 64 {
+					// narrowed x%y, x/y: never above x
+					if a := ex.rangeOf(in.args[0].args[0], depth+1); a.lo >= 0 && a.hi < r.hi {
+						r.hi = a.hi
+					}
 				}
 			}
 		}
